@@ -84,6 +84,7 @@ OpOf ==
 \* outside the model: a fill callback that panics in the middle of extend; snapshot(start) beyond the reserved range
 \* (answered by the documented assertion)
 Unsupported == \/ Ev.site = "call" /\ Ev.api \in {"extend_panic", "extend_huge", "push_checked", "mem_balance"}
+               \/ Ev.site = "call" /\ Ev.api = "extend" /\ Ev.reported + inflight > Cap - 64      \* beyond the modelled geometry
                \/ Ev.site = "atomic" /\ Ev.loc = "inflight" /\ Ev.op = "load" /\ pc[Me] = "s_cnt" /\ Ev.val < lc[Me].idx
 
 ApiCall ==
